@@ -27,7 +27,8 @@ Record stream := {
   st_subname : name;
   st_max : N;                      (* max_count of its pulls *)
   st_pending : list (list lease);  (* responses produced, not yet read by the client *)
-  st_term : option N }.            (* terminal status once the response stream ended *)
+  st_term : option N;              (* terminal status once the response stream ended *)
+  st_reqopen : bool }.             (* the client has not closed the request side *)            (* terminal status once the response stream ended *)
 
 Record server := {
   sv_now : N;
@@ -168,7 +169,7 @@ Definition stream_push (sid : N) (rs : list (list lease)) (sts : list stream) : 
   map (fun st => if N.eqb sid (st_id st)
                  then {| st_id := st_id st; st_sub := st_sub st; st_subname := st_subname st;
                          st_max := st_max st; st_pending := st_pending st ++ rs;
-                         st_term := st_term st |}
+                         st_term := st_term st; st_reqopen := st_reqopen st |}
                  else st) sts.
 
 Definition stream_terminate (p : stream -> bool) (code : N) (sts : list stream) : list stream :=
@@ -176,7 +177,7 @@ Definition stream_terminate (p : stream -> bool) (code : N) (sts : list stream) 
                  | None => if p st
                            then {| st_id := st_id st; st_sub := st_sub st; st_subname := st_subname st;
                                    st_max := st_max st; st_pending := st_pending st;
-                                   st_term := Some code |}
+                                   st_term := Some code; st_reqopen := st_reqopen st |}
                            else st
                  | Some _ => st
                  end) sts.
@@ -528,7 +529,7 @@ Definition handle (sv : server) (r : req) : server * resp * (N -> bool) :=
               | None => (sv, PErr INVALID_ARGUMENT, no_touch)
               | Some mx =>
                   let st := {| st_id := sid; st_sub := s_uid s; st_subname := sn; st_max := mx;
-                               st_pending := []; st_term := None |} in
+                               st_pending := []; st_term := None; st_reqopen := true |} in
                   (with_streams sv (sv_streams sv ++ [st]), POk, touch1 (s_uid s))
               end
           end
@@ -540,6 +541,7 @@ Definition handle (sv : server) (r : req) : server * resp * (N -> bool) :=
           match st_term st with
           | Some _ => (sv, PNone, no_touch)
           | None =>
+              if negb (st_reqopen st) then (sv, PNone, no_touch) else
               let fail code :=
                 (with_streams sv (stream_terminate (fun x => N.eqb sid (st_id x)) code (sv_streams sv)),
                  PNone, no_touch) in
@@ -561,7 +563,13 @@ Definition handle (sv : server) (r : req) : server * resp * (N -> bool) :=
                 end
           end
       end
-  | RStreamClose sid => (sv, PNone, no_touch)
+  | RStreamClose sid =>
+      (with_streams sv
+         (map (fun x => if N.eqb sid (st_id x)
+                        then {| st_id := st_id x; st_sub := st_sub x; st_subname := st_subname x;
+                                st_max := st_max x; st_pending := st_pending x; st_term := st_term x;
+                                st_reqopen := false |}
+                        else x) (sv_streams sv)), PNone, no_touch)
   | RStreamRead sid =>
       match find (fun st => N.eqb sid (st_id st)) (sv_streams sv) with
       | None => (sv, PStream [] None, no_touch)
@@ -569,7 +577,8 @@ Definition handle (sv : server) (r : req) : server * resp * (N -> bool) :=
           (with_streams sv
              (map (fun x => if N.eqb sid (st_id x)
                             then {| st_id := st_id x; st_sub := st_sub x; st_subname := st_subname x;
-                                    st_max := st_max x; st_pending := []; st_term := st_term x |}
+                                    st_max := st_max x; st_pending := []; st_term := st_term x;
+                                    st_reqopen := st_reqopen x |}
                             else x) (sv_streams sv)),
            PStream (st_pending st) (st_term st), no_touch)
       end
